@@ -11,7 +11,7 @@ try:
     r = subprocess.run(["git", "-C", wt, "apply", os.path.abspath(patch)], stdout=subprocess.PIPE, stderr=subprocess.STDOUT)
     if r.returncode != 0:
         print("PATCH DOES NOT APPLY:", r.stdout.decode()[-500:]); sys.exit(3)
-    env = dict(os.environ, VERIF_REPO=wt, VERIF_TIER=tier)
+    env = dict(os.environ, VERIF_REPO=wt, VERIF_TIER=tier, VERIF_EVIDENCE="/var/tmp/seed-evidence")
     t0 = time.time()
     p = subprocess.run(["./check", prop, "--tier", tier], cwd="/verif", env=env, stdout=subprocess.PIPE, stderr=subprocess.STDOUT)
     out = p.stdout.decode(errors="replace")
